@@ -34,8 +34,10 @@ FNAMED = "CCV7NAMED"
 KINDS = {
     "str": {"mk": lambda cc, **kw: cc.StringField(choices=["alpha", "beta", "gamma", "delta"], **kw), "valid": ("beta", "beta"), "invalid": "zeta",
             "decoy": "gamma", "file": "alpha", "file2": "delta", "assign": "delta", "default": "alpha"},
-    "int": {"mk": lambda cc, **kw: cc.IntField(min=0, max=9, **kw), "valid": ("5", 5), "invalid": "50", "decoy": "7", "file": 3, "file2": 4, "assign": 8, "default": 1},
+    "int": {"mk": lambda cc, **kw: cc.IntField(min=0, max=9, **kw), "valid": ("5", 5), "falsy": ("0", 0), "invalid": "50", "decoy": "7", "file": 3, "file2": 4, "assign": 8, "default": 1},
     "bool": {"mk": lambda cc, **kw: cc.BoolField(**kw), "valid": ("yes", True), "invalid": "maybe", "decoy": "on", "file": False, "file2": False, "assign": False, "default": False},
+    "bool-t": {"mk": lambda cc, **kw: cc.BoolField(**kw), "valid": ("on", True), "falsy": ("no", False), "invalid": "maybe", "decoy": "yes", "file": True, "file2": True, "assign": True, "default": True},
+    "float": {"mk": lambda cc, **kw: cc.FloatField(**kw), "valid": ("2.5", 2.5), "falsy": ("0.0", 0.0), "invalid": "x", "decoy": "7.5", "file": 3.5, "file2": 4.5, "assign": 8.5, "default": 1.5},
 }
 CONTAINER_KINDS = {
     "list": {"mk": lambda cc, **kw: cc.ListField(cc.IntField(), **kw), "valid": ("[5]", None), "invalid": "x", "decoy": "y", "file": [3], "file2": [4], "assign": [8], "default": [1]},
@@ -145,7 +147,7 @@ def histories():
 
 def bounds(tier):
     return {"schema_settings": SCHEMA_SET, "field_settings": FIELD_SET, "depths": [1, 2, 3], "kinds": list(KINDS) + (list(CONTAINER_KINDS)),
-            "variable_states": ["unset", "empty", "valid", "invalid"], "histories": len(histories())}
+            "variable_states": ["unset", "empty", "valid", "valid-but-falsy", "invalid"], "histories": len(histories())}
 
 
 def jobs(tier):
@@ -170,7 +172,9 @@ def run_job(job, ctx):
     for fset in FIELD_SET:
         for kind in job["kinds"]:
             for with_default in (False, True):
-                for var in ("unset", "empty", "valid", "invalid"):
+                for var in ("unset", "empty", "valid", "falsy", "invalid"):
+                    if var == "falsy" and "falsy" not in KINDS[kind]:
+                        continue
                     if only is not None and only[:4] != [fset, kind, with_default, var]:
                         continue
                     _world(ctx, job, cc, depth, ssets, fset, kind, with_default, var, only[4] if only else None)
@@ -229,11 +233,14 @@ def _world(ctx, job, cc, depth, ssets, fset, kind, with_default, var, only_hist)
             env[name] = ""
         elif var == "valid":
             env[name] = k["valid"][0]
+        elif var == "falsy":
+            env[name] = k["falsy"][0]
         elif var == "invalid":
             env[name] = k["invalid"]
     elif var != "unset":
         return   # no binding: the variable states coincide
-    bound_active = name is not None and var in ("valid", "invalid")
+    bound_active = name is not None and var in ("valid", "falsy", "invalid")
+    vv = k["falsy"] if var == "falsy" else k["valid"]
     for hist in histories():
         if only_hist is not None and hist != only_hist:
             continue
@@ -272,9 +279,9 @@ def _world(ctx, job, cc, depth, ssets, fset, kind, with_default, var, only_hist)
             if hist and hist[-1] == "assign":
                 wants = [k["assign"]]
             elif "assign" in hist:
-                wants = [k["assign"], k["valid"][1]]
+                wants = [k["assign"], vv[1]]
             else:
-                wants = [k["valid"][1]]
+                wants = [vv[1]]
             want = wants[0]
             if V.canon(got) not in [V.canon(x) for x in wants]:
                 what = "file-overrides-variable" if V.canon(got) in (V.canon(k["file"]), V.canon(k["file2"])) else \
